@@ -192,5 +192,46 @@ P = histprop.HistProp(
           "the full effect its contract prescribes, an observer that answers Ok answers truthfully, no mutating call "
           "reaches a lower overlay layer"),
     assumptions=["faults are injected at trait-call granularity by a public-trait wrapper (HarnessFS)"])
-generate, corpus, run_and_compare = P.generate, P.corpus, P.run_and_compare
-RULE, ASSUMPTIONS, BUILDS = P.RULE, P.ASSUMPTIONS, P.BUILDS
+generate, corpus = P.generate, P.corpus
+ASSUMPTIONS, BUILDS = P.ASSUMPTIONS, P.BUILDS
+RULE = P.RULE + ("; the ASYNC port: the walks and whole-tree composites of the directed enumeration (walk_dir, copy_dir, move_dir, "
+                 "remove_dir_all; every instance x every k) on memory, altroot and overlay stacks through the async API, the stream "
+                 "drained to its end after an error item: no panic, and outcome and items as in the async model")
+
+
+def async_faults():
+    from props import c15
+    sub = [c for c in corpus_cases()
+           if any(("c20_dir_%s_" % k) in c.name for k in ("mem", "alt_mem", "ovl_mm", "ovl_mmm"))
+           and any(("_%s_" % o) in c.name for o in ("walkdir", "copydir", "movedir", "removedirall"))]
+    _sync, asy, pend, amodel = c15.run_variants(sub, "c20a", seed=20)
+    by = {c.name: c for c in sub}
+    out, seen, n = [], set(), 0
+    for k in sorted(set(asy) | set(pend) | set(amodel), key=lambda k: (k[1], k[2], k[0])):
+        kind, cname, step = k
+        if kind != "r" or cname in seen:
+            continue
+        c = by[cname]
+        if step not in c.faulted_ops:
+            continue
+        n += 1
+        a, p_, m = asy.get(k), pend.get(k), amodel.get(k)
+        va, vp, vm = (histprop.contract_view(x) if x is not None else None for x in (a, p_, m))
+        bad = None
+        if (a or "").startswith("panic") or (p_ or "").startswith("panic"):
+            bad = "panic in the async port while a call into an underlying filesystem failed"
+        elif va != vm or vp != vm:
+            bad = "async port under a fault: %s / with pending futures %s / async model %s" % ((va or "")[:80], (vp or "")[:80], (vm or "")[:80])
+        if bad:
+            seen.add(cname)
+            out.append({"case": cname, "case_text": c.text(), "step": step, "op": c.ops[step] + "  [async]", "kind": "r", "model": m,
+                        "impl": a, "violates": True, "note": bad, "cfg": c.cfg.kind})
+    return out, n
+
+
+def run_and_compare(cases, tier):
+    res = P.run_and_compare(cases, tier)
+    dis, n = async_faults()
+    res["disagreements"] = res["disagreements"] + dis
+    res["stats"].setdefault("distribution", {})["async_faulted_operations_compared"] = n
+    return res
